@@ -219,7 +219,15 @@ def spec_old(ex, st, clo):
     return ex.eval(clo.node.body, s)
 
 
-SPEC_BUILTINS = {'old': spec_old, 'forall': spec_forall, 'exists': spec_exists, 'implies': spec_implies, 'iff': spec_iff,
+def spec_abstract(ex, st, v):
+    """ghost `x = abstract(x)`: a fresh integer constant equal to the (possibly large) term; after a `carry` cut only the carried
+    facts about the constant remain, the defining term is forgotten (generalisation: sound)"""
+    k = z3.Int(fresh_name('abs'))
+    st.assume(k == to_int(v))
+    return k
+
+
+SPEC_BUILTINS = {'abstract': spec_abstract, 'old': spec_old, 'forall': spec_forall, 'exists': spec_exists, 'implies': spec_implies, 'iff': spec_iff,
                  'ite': spec_ite, 'isinf': spec_isinf, 'finite': spec_finite, 'isneginf': spec_isneginf,
                  'logaddexp': lambda ex, st, a, b: np_logaddexp(ex, st, a, b)}
 
@@ -703,7 +711,9 @@ def np_where(ex, st, cond, *rest, **kw):
         r, obls = elementwise(lambda c, a, b: ite(to_z3(truthy(c)), a, b), st, cond, rest[0], rest[1])
         ex.emit_all(st, 'shape', obls, kw.get('_node'))
         return r
-    raise Unsupported('np.where with one argument (index extraction)')
+    if not rest:
+        return np_nonzero(ex, st, cond, **kw)      # np.where(mask) is np.nonzero(mask)
+    raise Unsupported('np.where with two arguments')
 
 
 def np_concatenate(ex, st, parts, axis=0, **kw):
@@ -1127,6 +1137,18 @@ def call_method(ex, st, obj, name, args, kwargs, node):
         if name in ('astype', 'cpu', 'numpy', 'detach', 'contiguous'):
             return obj
         raise Unsupported('array method %s' % name)
+    if isinstance(obj, DictVal) and name == 'get' and 1 <= len(args) <= 2:
+        # d.get(k, default) == d[k] if k in d else default
+        k_ = args[0]
+        dflt = args[1] if len(args) == 2 else None
+        h = obj.has(k_)
+        if h is True:
+            return obj.get(k_)
+        if h is False:
+            return dflt
+        if dflt is None:
+            raise Unsupported('dict.get without default on a symbolic dict')
+        return ite(to_z3(h), obj.get(k_), dflt)
     if isinstance(obj, SeqVal):
         if name == 'append':
             raise Unsupported('SeqVal.append must be handled at statement level')
